@@ -67,12 +67,33 @@ package discov
 //@   loop 0: modifies nothing
 //@   loop 0: invariant forall(v.(string), has(vals, v) == seen[v])
 
+// a change notification runs every listener registered at that moment, once (ghost counters: rounds of notification,
+// listener invocations of the current round)
+//@ ghost var notifs int
+//@ ghost var lsnRuns int
 //@ func (c *container) notifyChange
 //@   property C13
 //@   flag callbacks_noheap
-//@   ensures  true
-//@   loop 0: modifies nothing
-//@   loop 0: invariant true
+//@   ghost at entry: notifs = notifs + 1
+//@   ghost at entry: lsnRuns = 0
+//@   ghost at after listener#0: lsnRuns = lsnRuns + 1
+//@   ghost at after Unlock#0: nl = len(listeners)
+//@   ensures  notifs == old(notifs) + 1
+//@   ensures  lsnRuns == nl
+//@   loop 0: modifies lsnRuns, calls
+//@   loop 0: invariant lsnRuns == idx && notifs == old(notifs) + 1
+
+// every registry event is applied to the container and then announced, exactly once, whatever the container looked like
+//@ func (c *container) OnAdd
+//@   property C13
+//@   requires cInv(c)
+//@   call addKv#0: assert arg_key == kv.Key && arg_value == kv.Val
+//@   ensures  notifs == old(notifs) + 1
+//@ func (c *container) OnDelete
+//@   property C13
+//@   requires cInv(c)
+//@   call removeKey#0: assert arg_key == kv.Key
+//@   ensures  notifs == old(notifs) + 1
 
 //@ func newContainer
 //@   property C13
